@@ -6,6 +6,9 @@ SEEDS="$@"
 [ -z "$SEEDS" ] && SEEDS=$(ls seeded)
 for s in $SEEDS; do
   id=${s%%-*}
+  # a seed whose violation is reported by another property's check names it in meta.json
+  by=$(python3 -c "import json,sys; print(json.load(open('/verif/seeded/$s/meta.json')).get('detected_by',''))" 2>/dev/null)
+  [ -n "$by" ] && id=$by
   cd /repo || exit 2
   if ! git diff --quiet; then echo "repo dirty"; exit 2; fi
   if ! git apply "/verif/seeded/$s/patch.diff" 2>/dev/null; then echo "$s: PATCH DOES NOT APPLY"; continue; fi
